@@ -10,24 +10,24 @@ _ERR = {"CuckooFilterFullError": {"when": "True", "must": False, "state": "any",
                                   "ensures": [("every_count_is_kept", "cc_counts(self) == old(cc_counts(self))"),
                                               ("well_formed", "cc_wellformed(self)")]}}
 
-contract("CountingCuckooFilter.add", contexts=["CountingCuckooFilter"], properties=["C03", "C08", "C14", "C15"],
+contract("CountingCuckooFilter.add", contexts=["CountingCuckooFilter"], bounded_only=True, properties=["C03", "C08", "C14", "C15"],
          params={"key": "key"}, requires=_REQ, raises=_ERR, modifies=["self"],
          ensures=[("count_of_the_keys_fingerprint_plus_one_nothing_else_changes",
                    "cc_counts(self) == dict_plus(old(cc_counts(self)), cc_fp(self, key), 1)"),
                   ("well_formed", "cc_wellformed(self)")])
 
-contract("CountingCuckooFilter.check", contexts=["CountingCuckooFilter"], properties=["C08", "C19"],
+contract("CountingCuckooFilter.check", contexts=["CountingCuckooFilter"], bounded_only=True, properties=["C08", "C19"],
          params={"key": "key"}, returns="int", requires=_REQ, modifies=[],
          ensures=[("outstanding_additions_of_the_fingerprint", "result == cc_counts(self).get(cc_fp(self, key), 0)")])
 
-contract("CountingCuckooFilter.remove", contexts=["CountingCuckooFilter"], properties=["C08", "C14", "C15"],
+contract("CountingCuckooFilter.remove", contexts=["CountingCuckooFilter"], bounded_only=True, properties=["C08", "C14", "C15"],
          params={"key": "key"}, returns="bool", requires=_REQ, modifies=["self"],
          ensures=[("says_whether_it_was_present", "result == (cc_fp(self, key) in old(cc_counts(self)))"),
                   ("count_minus_one_or_nothing",
                    "cc_counts(self) == (dict_plus(old(cc_counts(self)), cc_fp(self, key), -1) if result else old(cc_counts(self)))"),
                   ("well_formed", "cc_wellformed(self)")])
 
-contract("CountingCuckooFilter.expand", contexts=["CountingCuckooFilter"], properties=["C03", "C08", "C14", "C15"],
+contract("CountingCuckooFilter.expand", contexts=["CountingCuckooFilter"], bounded_only=True, properties=["C03", "C08", "C14", "C15"],
          requires=_REQ, raises=_ERR, modifies=["self"],
          ensures=[("every_count_is_kept", "cc_counts(self) == old(cc_counts(self))"),
                   ("capacity_multiplied", "self._cuckoo_capacity == old(self._cuckoo_capacity) * self._CuckooFilter__expansion_rate"),
